@@ -39,13 +39,6 @@ def parseResults : Nat → List String → Option (List Res × List String)
     some (r :: rs, rest')
   | _, _ => none
 
-def sortStrings (xs : List String) : List String :=
-  xs.foldl (fun acc x =>
-    let rec ins : List String → List String
-      | [] => [x]
-      | y :: ys => if x < y then x :: y :: ys else y :: ins ys
-    ins acc) []
-
 def showBase : Option Base → String
   | none => "absent"
   | some b =>
